@@ -139,6 +139,256 @@ class LexerModel:
             self._active.discard(key)
 
 
+
+def _nested_stop_rule(prog: Program, res: Result, lexer, rel: str) -> int:  # noqa: ANN001, PLR0915
+    """Values: ("T", k) = k characters past the start of the terminator (k an int, or "w" for an unknown positive width); None = unknown."""
+    from sa.cfg import forward
+
+    TERMINATORS = ("RE_TAG_END", "RE_LINE_TERM", "RE_OUTPUT_END")
+    n_dec = 0
+
+    def is_self_call(e: ast.AST, names: tuple[str, ...] | None = None) -> str | None:
+        if isinstance(e, ast.Call) and isinstance(e.func, ast.Attribute) and isinstance(e.func.value, ast.Name) and e.func.value.id == "self":
+            if names is None or e.func.attr in names or any(e.func.attr.startswith(n) for n in names if n.endswith("_")):
+                return e.func.attr
+        return None
+
+    def term_regex(e: ast.AST) -> bool:
+        return any(isinstance(x, ast.Attribute) and x.attr in TERMINATORS for x in ast.walk(e))
+
+    for fi in sorted(prog.all_functions(), key=lambda f: f.node.lineno):
+        if fi.cls is not lexer:
+            continue
+        ctors = [c for c in ast.walk(fi.node) if isinstance(c, ast.Call) and (dotted(c.func) or "").endswith("Token") and any(k.arg == "stop" for k in c.keywords)]
+        nested = []
+        for c in ctors:
+            par = fi.module.parent(c)
+            if isinstance(par, ast.Call) and isinstance(par.func, ast.Attribute) and par.func.attr == "append" and norm(par.func.value) != "self.markup":
+                nested.append(c)
+        if not nested:
+            continue
+        cfg = CFG(fi.node)
+        quote_vars = {a.targets[0].id for a in ast.walk(fi.node) if isinstance(a, ast.Assign) and len(a.targets) == 1 and isinstance(a.targets[0], ast.Name) and is_self_call(a.value, ("next",))}
+
+        def ev(e: ast.AST, st: dict):  # noqa: ANN202
+            if _is_self_attr(e, "pos"):
+                return st.get("pos")
+            if _is_self_attr(e, "start"):
+                return st.get("start")
+            if isinstance(e, ast.Name):
+                return st.get("$" + e.id)
+            if isinstance(e, ast.BinOp) and isinstance(e.op, (ast.Sub, ast.Add)) and isinstance(e.right, ast.Constant) and isinstance(e.right.value, int):
+                b = ev(e.left, st)
+                if b is not None and isinstance(b[1], int):
+                    return ("T", b[1] - e.right.value if isinstance(e.op, ast.Sub) else b[1] + e.right.value)
+                return None
+            return None
+
+        def transfer(n, st: dict, label: str) -> dict:  # noqa: ANN001
+            if label == "exc" or n.node is None:
+                return st
+            nd = n.node
+            st = dict(st)
+            if n.kind == "test":
+                # terminator tests
+                if isinstance(nd, ast.NamedExpr) and term_regex(nd.value) and label == "true":
+                    st["pos"] = ("T", 0)
+                    st["start"] = ("T", 0) if st.get("sync") else None
+                    st["$" + nd.target.id] = None
+                    return st
+                if is_self_call(nd, ("accept",)) and term_regex(nd):
+                    if label == "true":
+                        st["pos"] = ("T", "w")
+                        st["start"] = ("T", 0) if st.get("sync") else None
+                        st["sync"] = False
+                    return st
+                if isinstance(nd, ast.Compare) and len(nd.ops) == 1 and isinstance(nd.ops[0], ast.Eq) and isinstance(nd.left, ast.Name) and nd.left.id in quote_vars and norm(nd.comparators[0]) == "quote":
+                    if label == "true":
+                        st["pos"] = ("T", 1)
+                        st["sync"] = False
+                    return st
+                neg = isinstance(nd, ast.UnaryOp) and isinstance(nd.op, ast.Not)
+                inner = nd.operand if neg else nd
+                if is_self_call(inner, ("accept_token", "accept", "accept_path")):
+                    consumed = (label == "false") if neg else (label == "true")
+                    if consumed:
+                        st["pos"], st["sync"] = None, False
+                    return st
+                if any(is_self_call(x, ("next", "accept_", "accept", "lex_")) for x in ast.walk(nd)):
+                    st["pos"], st["sync"] = None, False
+                return st
+            if n.kind != "stmt" or n.note in ("def", "unhandled"):
+                return st
+            for x in ast.walk(nd) if not isinstance(nd, (ast.If, ast.While, ast.For, ast.Try, ast.With, ast.Match)) else []:
+                nm = is_self_call(x)
+                if nm is None:
+                    continue
+                if nm == "ignore" or nm.startswith("ignore_"):
+                    if nm != "ignore":
+                        # whitespace helpers move pos then sync; relative to a terminator already passed the offset stays "after"
+                        if st.get("pos") is not None and st["pos"][1] != 0:
+                            st["pos"] = ("T", "w")
+                        elif st.get("pos") is not None:
+                            st["pos"] = None
+                    st["start"] = st.get("pos")
+                    st["sync"] = True
+                elif nm in ("next", "accept", "accept_token", "accept_path", "accept_string", "accept_template_string", "accept_range", "backup") or nm.startswith("lex_"):
+                    st["pos"], st["sync"] = None, False
+            if isinstance(nd, ast.AugAssign) and _is_self_attr(nd.target, "pos"):
+                cur = st.get("pos")
+                st["pos"] = ("T", "w") if cur is not None else None
+                st["sync"] = False
+            elif isinstance(nd, ast.Assign) and len(nd.targets) == 1:
+                t = nd.targets[0]
+                if _is_self_attr(t, "start"):
+                    st["start"] = ev(nd.value, st)
+                    st["sync"] = _is_self_attr(nd.value, "pos")
+                elif _is_self_attr(t, "pos"):
+                    st["pos"], st["sync"] = ev(nd.value, st), False
+                elif isinstance(t, ast.Name):
+                    st["$" + t.id] = ev(nd.value, st)
+            return st
+
+        def join(a: dict, b: dict) -> dict:
+            return {k: a[k] for k in a if k in b and a[k] == b[k]}
+
+        IN = forward(cfg, {"sync": False}, transfer, join)
+        for c in nested:
+            node = next((n for n in cfg.nodes if n.node is not None and n.kind in ("stmt", "test") and n.id in IN and not isinstance(n.node, (ast.If, ast.While, ast.For, ast.Try, ast.With)) and any(x is c for x in ast.walk(n.node))), None)
+            if node is None:
+                continue
+            stop = next(k.value for k in c.keywords if k.arg == "stop")
+            val = ev(stop, IN[node.id])
+            site = f"{rel}:{c.lineno} {fi.qualname}"
+            what = f"{fi.qualname}: {norm(c.func)}(stop={norm(stop)}) ends where its terminator begins"
+            if val is None:
+                continue  # no terminator consumed on the way here (the end is decided by another rule or not at all)
+            n_dec += 1
+            if val == ("T", 0):
+                res.ok("C17.R10", site, what, "stop evaluates to the terminator's offset")
+            else:
+                res.fail("C17.R10", file=rel, line=c.lineno, qualname=fi.qualname, construct=f"{fi.qualname}: {norm(c.func)} stop={norm(stop)} lies past the terminator", message=f"{fi.qualname} builds a nested {norm(c.func)} whose stop (`{norm(stop)}`) is taken after the scanner consumed the delimiter that ends it: the token's span includes the closing delimiter, so it is not the text the token was scanned from", what=what)
+    return n_dec
+
+
+def _error_naming_rule(prog: Program, res: Result) -> int:  # noqa: PLR0912, PLR0915
+    n = 0
+    EXT = "liquid2/builtin/tags/extends_tag.py"
+
+    def root(e: ast.AST | None) -> str | None:
+        while isinstance(e, (ast.Attribute, ast.Subscript, ast.Call)):
+            e = e.func if isinstance(e, ast.Call) else e.value
+        return e.id if isinstance(e, ast.Name) else None
+
+    # (a) foreign block renders
+    for fi in sorted(prog.all_functions(), key=lambda f: (f.file, f.node.lineno)):
+        if not fi.file.startswith(("liquid2/builtin/tags/", "liquid2/shopify/tags/")):
+            continue
+        for c in ast.walk(fi.node):
+            if not (isinstance(c, ast.Call) and isinstance(c.func, ast.Attribute) and c.func.attr in ("render", "render_async")):
+                continue
+            recv = c.func.value
+            r = root(recv)
+            txt = norm(recv)
+            if r in (None, "self", "template") and not txt.startswith("self.parent."):
+                continue  # the node's own block (parsed from the template that is being rendered), or a whole template
+            if r not in (None, "self"):
+                # a local that ranges over / is taken from the node's own fields is the node's own block as well
+                defs = [a.value for a in ast.walk(fi.node) if isinstance(a, ast.Assign) and any(isinstance(t, ast.Name) and t.id == r for t in a.targets)]
+                defs += [a.iter for a in ast.walk(fi.node) if isinstance(a, (ast.For, ast.AsyncFor, ast.comprehension)) and any(isinstance(t, ast.Name) and t.id == r for t in ast.walk(a.target))]
+                if defs and all(root(d) == "self" and "context" not in norm(d) for d in defs):
+                    continue
+            if ".block" not in txt and not txt.endswith("block"):
+                continue
+            holder = txt.split(".block")[0]
+            n += 1
+            site = f"{fi.file}:{c.lineno} {fi.qualname}"
+            what = f"{fi.qualname}: errors escaping `{norm(c.func, 60)}` are named after `{holder}`"
+            named = False
+            for a in fi.module.ancestors(c):
+                if isinstance(a, ast.Try) and any(any(x is c for x in ast.walk(b)) for b in a.body):
+                    for h in a.handlers:
+                        catches = norm(h.type) if h.type is not None else ""
+                        if "LiquidError" not in catches and catches not in ("Exception", "BaseException", ""):
+                            continue
+                        for st in ast.walk(h):
+                            if isinstance(st, ast.Assign) and any(isinstance(t, ast.Attribute) and t.attr == "template_name" and isinstance(t.value, ast.Name) and t.value.id == h.name for t in st.targets) and norm(st.value).startswith(holder + "."):
+                                named = True
+                if a is fi.node:
+                    break
+            if named:
+                res.ok("C17.R11", site, what, "handler sets err.template_name from the item the block came from")
+            else:
+                res.fail("C17.R11", file=fi.file, line=c.lineno, qualname=fi.qualname, construct=f"{fi.qualname}: block of `{holder}` rendered without naming escaping errors", message=f"{fi.qualname} renders a block that was parsed from another template (`{norm(c.func, 60)}`) with no handler that names escaping errors after `{holder}`: the first Template.render_with_context they pass through names them after the template that is rendering, so the line and column of the error are shown against the wrong source", what=what)
+    # (b) inheritance errors: token and name from the same origin
+    ext = prog.mod(EXT)
+    for fi in sorted(ext.functions.values(), key=lambda f: f.node.lineno):
+        origin: dict[str, str] = {}
+        for a in ast.walk(fi.node):
+            if isinstance(a, ast.Assign) and len(a.targets) == 1:
+                t = a.targets[0]
+                names = [x.id for x in ast.walk(t) if isinstance(x, ast.Name)]
+                rr = root(a.value) if not isinstance(a.value, ast.Call) else None
+                src = {x.id for x in ast.walk(a.value) if isinstance(x, ast.Name)}
+                for nm in names:
+                    if "template" in src:
+                        origin[nm] = "template"
+                    elif rr is not None:
+                        origin[nm] = origin.get(rr, rr)
+            if isinstance(a, (ast.For, ast.comprehension)):
+                rr = root(a.iter)
+                for x in ast.walk(a.target):
+                    if isinstance(x, ast.Name) and rr is not None:
+                        origin[x.id] = origin.get(rr, rr)
+        for r_ in ast.walk(fi.node):
+            if not (isinstance(r_, ast.Raise) and isinstance(r_.exc, ast.Call)):
+                continue
+            kw = {k.arg: k.value for k in r_.exc.keywords if k.arg}
+            tok = kw.get("token")
+            if tok is None or (isinstance(tok, ast.Constant) and tok.value is None):
+                continue
+            tr = root(tok)
+            if tr == "self":
+                nm0 = kw.get("template_name")
+                if nm0 is not None and root(nm0) not in (None, "self", "context"):
+                    n += 1
+                    res.fail("C17.R11", file=fi.file, line=r_.lineno, qualname=fi.qualname, construct=f"{fi.qualname}: {norm(r_.exc.func)} with the node's own token and template_name from `{root(nm0)}`", message=f"{fi.qualname} raises {norm(r_.exc.func)} with its own token (`{norm(tok, 40)}`, a position in the template this node was parsed from) but names another template (`{norm(nm0, 40)}`): line and column are shown against the wrong source", what=f"{fi.qualname}: token and template_name of {norm(r_.exc.func)} belong together")
+                continue  # the node's own token: named by the template that renders the node
+            handles_foreign = "template" in fi.params() or (fi.parent_fn is not None and "template" in fi.parent_fn.params()) or origin.get(tr or "", tr) in ("stack_item", "block_stack", "template")
+            if not handles_foreign:
+                continue  # parse-time errors: the stream being parsed is the template that Environment.from_string names
+            n += 1
+            site = f"{fi.file}:{r_.lineno} {fi.qualname}"
+            what = f"{fi.qualname}: `{norm(r_.exc.func)}` raised with token={norm(tok, 40)} names the template that token is from"
+            nm = kw.get("template_name")
+            t_origin = origin.get(tr or "", tr)
+            n_origin = origin.get(root(nm) or "", root(nm)) if nm is not None else None
+            if nm is not None and (n_origin == t_origin or (t_origin in ("template",) and n_origin == "template")):
+                res.ok("C17.R11", site, what, f"token and template_name both derive from `{t_origin}`")
+            else:
+                res.fail("C17.R11", file=fi.file, line=r_.lineno, qualname=fi.qualname, construct=f"{fi.qualname}: {norm(r_.exc.func)} with a token of `{t_origin}` and template_name from `{n_origin}`", message=f"{fi.qualname} raises {norm(r_.exc.func)} with token `{norm(tok, 40)}` (from `{t_origin}`) but " + ("no template_name" if nm is None else f"template_name `{norm(nm, 40)}` (from `{n_origin}`)") + ": the error is shown against the source of another template than the one its position refers to", what=what)
+    # (c) interrupts converted into syntax errors
+    for fi in sorted(prog.all_functions(), key=lambda f: (f.file, f.node.lineno)):
+        for h in ast.walk(fi.node):
+            if not (isinstance(h, ast.ExceptHandler) and h.type is not None and "LiquidInterrupt" in norm(h.type) and h.name):
+                continue
+            for r_ in ast.walk(h):
+                if not (isinstance(r_, ast.Raise) and isinstance(r_.exc, ast.Call)):
+                    continue
+                if fi.cls is not None and fi.cls.name == "CallNode":
+                    continue  # a macro body is not part of the caller's loop: reported at the call, deliberately
+                kw = {k.arg: k.value for k in r_.exc.keywords if k.arg}
+                n += 1
+                site = f"{fi.file}:{r_.lineno} {fi.qualname}"
+                what = f"{fi.qualname}: an interrupt converted into {norm(r_.exc.func)} keeps the interrupting tag's position"
+                tok_ok = kw.get("token") is not None and f"{h.name}.token" in norm(kw["token"])
+                name_ok = kw.get("template_name") is not None and f"{h.name}.template_name" in norm(kw["template_name"])
+                if tok_ok and name_ok:
+                    res.ok("C17.R11", site, what, "token and template_name taken from the interrupt first")
+                else:
+                    res.fail("C17.R11", file=fi.file, line=r_.lineno, qualname=fi.qualname, construct=f"{fi.qualname}: interrupt converted without its own position", message=f"{fi.qualname} turns a loop interrupt into {norm(r_.exc.func)} positioned at the enclosing node instead of the `break`/`continue` tag that raised it (token: {'ok' if tok_ok else 'not from the interrupt'}, template_name: {'ok' if name_ok else 'not from the interrupt'})", what=what)
+    return n
+
 def run(prog: Program, res: Result) -> None:
     res.explanation = (
         "Typestate synced <=> self.start == self.pos is propagated through the CFG of every Lexer state function "
@@ -666,6 +916,16 @@ def run(prog: Program, res: Result) -> None:
             res.ok("C17.R9", f"{rel}:{c.lineno} Lexer.accept_range", what, f"start={norm(st_)}, stop={norm(sp_)}")
         else:
             res.fail("C17.R9", file=rel, line=c.lineno, qualname="Lexer.accept_range", construct=f"RangeToken(start={norm(st_) if st_ is not None else '?'}, stop={norm(sp_) if sp_ is not None else '?'})", message="the range token's span is not `(` through `)`: its start is not the opening parenthesis' position or its stop is not one past the closing parenthesis, so the span reported for `(a..b)` is not the text it was scanned from", what=what)
+
+    # ---------------------------------------------------------------- R10: a nested token stops before its terminator
+    res.rule("C17.R10", "a token nested in a markup token (a line statement of a liquid tag, a template string) ends where the delimiter that terminated it begins: its stop is never an offset taken after the scanner consumed that delimiter (`%}` / line break / closing quote) - forward dataflow of self.pos, self.start and locals relative to the terminator's offset T")
+    n_r10 = _nested_stop_rule(prog, res, lexer, rel)
+    res.floor("C17.R10", "nested token ends evaluated against their terminator", n_r10, 3)
+
+    # ---------------------------------------------------------------- R11: an error names the template its token belongs to
+    res.rule("C17.R11", "an error's template name and its token belong together (the name picks the source that line and column are shown against): (a) wherever a node renders a block parsed from another template (`<item>.block….render[_async](…)` with <item> a block-stack entry or a stored macro), a handler names escaping errors after that item before Template.render_with_context can name them after the rendering template; (b) an inheritance error raised with a token passes template_name from the same object / template the token comes from; (c) a loop interrupt turned into a syntax error is reported with the interrupt's own token and template name")
+    n_r11 = _error_naming_rule(prog, res)
+    res.floor("C17.R11", "naming obligations (foreign renders, inheritance errors, interrupt conversions)", n_r11, 12)
 
     progress_rule(prog, res, lexer, lm, state_fns)
 
